@@ -123,7 +123,7 @@ mod imp {
 
     enum WriteRes {
         /// the backend's own API cannot construct this (instant, offset): outside its range
-        Skip(String),
+        Skip,
         Ok(String),
         Err(String),
     }
@@ -155,14 +155,14 @@ mod imp {
             W::ChronoUtc => {
                 use chrono::TimeZone;
                 let Some(dt) = chrono::Utc.timestamp_opt(instant, 0).single() else {
-                    return WriteRes::Skip("chrono: instant out of range".into());
+                    return WriteRes::Skip;
                 };
                 conv(&mut || Object::from(dt))
             }
             W::ChronoLocal => {
                 use chrono::TimeZone;
                 let Some(dt) = chrono::Local.timestamp_opt(instant, 0).single() else {
-                    return WriteRes::Skip("chrono: instant out of range".into());
+                    return WriteRes::Skip;
                 };
                 if dt.offset().local_minus_utc() != off_s {
                     machinery(&format!(
@@ -177,11 +177,11 @@ mod imp {
             W::JiffZoned => {
                 let ts = match jiff::Timestamp::from_second(instant) {
                     Ok(t) => t,
-                    Err(e) => return WriteRes::Skip(format!("jiff: {}", e)),
+                    Err(_) => return WriteRes::Skip,
                 };
                 let off = match jiff::tz::Offset::from_seconds(off_s) {
                     Ok(o) => o,
-                    Err(e) => return WriteRes::Skip(format!("jiff: {}", e)),
+                    Err(_) => return WriteRes::Skip,
                 };
                 let z = ts.to_zoned(jiff::tz::TimeZone::fixed(off));
                 conv(&mut || Object::from(z.clone()))
@@ -189,13 +189,13 @@ mod imp {
             W::JiffTimestamp => {
                 let ts = match jiff::Timestamp::from_second(instant) {
                     Ok(t) => t,
-                    Err(e) => return WriteRes::Skip(format!("jiff: {}", e)),
+                    Err(_) => return WriteRes::Skip,
                 };
                 conv(&mut || Object::from(ts))
             }
             W::TimeOdt => match time_value(instant, off_s) {
                 Some(dt) => conv(&mut || Object::from(dt)),
-                None => WriteRes::Skip("time: out of range".into()),
+                None => WriteRes::Skip,
             },
         }
     }
@@ -505,7 +505,7 @@ mod imp {
         let expected = if w.utc_type() { rd::format_z_form(instant) } else { rd::format_offset_form(instant, offset_min) }
             .expect("case outside the domain");
         match write(w, instant, offset_min) {
-            WriteRes::Skip(_) => {
+            WriteRes::Skip => {
                 out.add(&format!("writer_range_skips/{}", w.name()), 1);
                 None
             }
@@ -707,10 +707,16 @@ mod imp {
         (-MAX_OFF..=MAX_OFF).collect()
     }
 
+    static TOTALS: Mutex<BTreeMap<String, u64>> = Mutex::new(BTreeMap::new());
+
     fn merge(run: &Run, out: Out, strings: &Mutex<HashSet<u64>>, info: &Mutex<Vec<Value>>) {
         run.eval(out.evals);
-        for (k, n) in &out.counts {
-            run.add(k, *n);
+        {
+            let mut t = TOTALS.lock().unwrap();
+            for (k, n) in &out.counts {
+                run.add(k, *n);
+                *t.entry(k.clone()).or_insert(0) += *n;
+            }
         }
         for (i, o) in &out.cases {
             if *o != 0 {
@@ -916,7 +922,24 @@ mod imp {
             json!({"space": offsets.len(), "in_process": offsets.len(), "chrono_local_children": local_offsets.len(),
                    "range": "-23:59..+23:59, every minute"}),
         );
-        run.set("backend_pairs", json!(9));
+        // ordered (writer backend, reader backend) pairs that were actually executed, with their counts
+        let mut bp: BTreeMap<String, u64> = BTreeMap::new();
+        {
+            let t = TOTALS.lock().unwrap();
+            for w in [W::ChronoUtc, W::ChronoLocal, W::JiffZoned, W::JiffTimestamp, W::TimeOdt] {
+                for r in READERS {
+                    let n = t.get(&format!("pairs/{} -> {}", w.name(), r.name())).copied().unwrap_or(0);
+                    if n > 0 {
+                        *bp.entry(format!("{} -> {}", w.backend(), r.backend())).or_insert(0) += n;
+                    }
+                }
+            }
+        }
+        run.set("backend_pairs", json!(bp.len()));
+        run.set("backend_pair_reads", json!(bp));
+        if bp.len() != 9 {
+            run.cap_hit("not every ordered backend pair was executed");
+        }
         run.set("backends", json!(["chrono", "jiff", "time"]));
         run.set(
             "writer_types",
